@@ -220,6 +220,10 @@ func c12Run(c *Ctx) {
 			}
 		}
 		fsets := []Flags{{W: true}, {W: true, N: true, B: true, I: true}}
+		if sc.Layer == "L0" || sc.Layer == "stages" {
+			// the namespace flag next to each other mode
+			fsets = append(fsets, Flags{W: true, F: []string{ns.db}}, Flags{W: true, Y: true}, Flags{W: true, Z: "^(fld|status)$"})
+		}
 		for ri, r := range reps {
 			if ri > 0 && sc.Layer != "stages" && sc.Layer != "L0" {
 				break
